@@ -44,6 +44,8 @@ def gen_case(rng: random.Random, tier: str) -> dict:
     if c["entry"] == "cli" and rng.random() < 0.12:
         c["special"] = rng.choice(["missing", "directory", "empty"])  # not a readable document at all: still exit 1 / one line
         c["ops"] = []
+    if c["entry"] in ("archive_zip", "archive_tar") and rng.random() < 0.4:
+        c["after_same"] = True  # the member after the damaged one is the undamaged document of the same format: it must still come out
     return c
 
 
